@@ -136,15 +136,28 @@ FRAME_TABLE = {
     'eqsig.surface.calc_surface_energy': (dict(asig=SIG(), travel_times=('consts', ['0.01', '0.02'])), {}),
     'eqsig.surface.calc_cum_abs_surface_energy': (dict(asig=SIG(), travel_times=('consts', ['0.01', '0.02'])), {}),
     'eqsig.surface.get_time_shift_motions': (dict(asig=SIG(), travel_times=('consts', ['0.01', '0.02'])), {}),
+    # option variants ('#tag' after the qualified name): delays shorter than half a step (no padding at all), the surface itself,
+    # scalar / per-row reduction factors other than 1, non-nodal, untrimmed; rectangle rule; kept adjacent zeros; tolerance
+    'eqsig.surface.calc_surface_energy#no-delay-scalar-reductions': (dict(asig=SIG(), travel_times=Q(0), up_red=R_('up_red'), down_red=R_('down_red')), {}),
+    'eqsig.surface.calc_surface_energy#sub-step-delays-scalar-reductions': (dict(asig=SIG(), travel_times=('consts', ['0', '0.004']), up_red=R_('up_red'), down_red=R_('down_red'), nodal=False, trim=False), {}),
+    'eqsig.surface.calc_surface_energy#row-reductions': (dict(asig=SIG(), travel_times=('consts', ['0', '0.02']), up_red=('consts', ['0.9', '0.8']), down_red=('consts', ['0.7', '0.6'])), {}),
+    'eqsig.surface.calc_cum_abs_surface_energy#no-delay-scalar-reductions': (dict(asig=SIG(), travel_times=('consts', ['0', '0.004']), up_red=R_('up_red'), down_red=R_('down_red')), {}),
+    'eqsig.surface.get_time_shift_motions#no-delay': (dict(asig=SIG(), travel_times=('consts', ['0', '0.004']), up_red=R_('up_red'), down_red=R_('down_red')), {}),
+    'eqsig.displacements.calc_velo_and_disp_from_accel_arr#rectangle': (dict(acceleration=A_('a'), dt=R_('dt'), trap=False), {}),
+    'eqsig.fns.peaks_and_crossings.get_zero_crossings_array_indices#keep-adjacent-zeros': (dict(values=A_('a'), keep_adj_zeros=True), {}),
+    'eqsig.fns.peaks_and_crossings.get_switched_peak_array_indices#tolerance': (dict(values=A_('a'), tol=R_('tol')), {'n': 3}),
+    'eqsig.fns.time_step.interp_array_to_approx_dt#decimate-odd': (dict(values=A_('a'), dt=Q('0.01'), target_dt=Q('0.02'), even=False), {}),
+    'eqsig.fns.average.calc_roll_av_vals#centre': (dict(values=A_('a'), steps=3, mode='centre'), {}),
     'eqsig.multiple.combine_at_angle': (dict(acc_sig_ns=SIG('a'), acc_sig_we=SIG('b'), angle=R_('theta', False)), {}),
     'eqsig.multiple.compute_rotated': (dict(acc_sig_ns=SIG('a'), acc_sig_we=SIG('b'), parameter='pga', points=3), {}),
 }
 
 
-@unit('C05', 'array-function-leaves-arguments-unchanged', functions=sorted(FRAME_TABLE),
+@unit('C05', 'array-function-leaves-arguments-unchanged', functions=sorted({k.split('#')[0] for k in FRAME_TABLE}),
       cases=[dict(fn=f) for f in sorted(FRAME_TABLE)], modes=('bounded',), sizes=dict(n=[4], P=[2]), budget_ms=5000)
 def frame_bounded(V, fn):
     spec, override = FRAME_TABLE[fn]
+    fn = fn.split('#')[0]
     st = {'arrays': {}, 'sigs': {}}
     _size = V.size
     V.size = lambda name, lo=0: min(_size(name, lo), override.get(name, 10 ** 6))       # smaller size for path-heavy functions
